@@ -1,12 +1,54 @@
 PROP = dict(
-    unclaimed=True,
     module="M3d.Props.C11",
     corr=dict(quick=300, thorough=1200),
     gen=[],
-    corr_theorems="(being built)",
-    rule="(being built)",
-    trusted=[],
-    assumptions=[],
-    level_text="(being built)",
-    level_note="(being built)",
+    corr_theorems=(
+        "M3d.C11.needs_repair_iff / needs_repair_iff_two_faces / inconsistent_edges_eq / edge_balanced_iff_clean (diag3, diagd3), "
+        "singular_vertices_eq / singular_search_exact / fan_adjacency_is_shared_edge_at_vertex / singular_iff_clusters / fan_connected_no_singular_vertices / closed_manifold_diagnostics_clean (diag3 sv), clusters_partition (clus3), "
+        "orientations_consistent_partial / majority_minimal_flips / repair_normals_majority_consistent (rnm3), repair_normals_restores (rn3, rn2), "
+        "repair_merges_classes (rep3, rep2), components_partition / hierarchy_partition / hierarchy_nodes_are_components / hierarchy_nesting / "
+        "hierarchy_contains_eq_evenodd (hier3, hier2), manifold2_iff / inconsistent_vertices2_eq / in_out_one_iff_clean2 (diag2). "
+        "The driver prints what the DEFINITIONS give (edge multiplicities, naive closures, exact rational even-odd ray casting, Surface's proved "
+        "deciders) and flags any disagreement between a faithful model and its definition (MODELDIFF), so a difference with the real output is a failing input."
+    ),
+    rule=(
+        "closed manifolds (boxes, grid boxes, octa/tetrahedra, icospheres, tori, marching-cubes lattice solids incl. hollow ones, nested shells, "
+        "several components, Moebius/annulus/Klein/torus grids) with 0-3 damages (open, open a vertex star, pinch two vertices, flip faces, flip a "
+        "component, duplicate a face, fin, doubled fin/pillow, touching copy, tetrahedron glued on an edge / a vertex); jittered and chained "
+        "near-duplicate vertices for Repair (power-of-two epsilon); forests of nested boxes/octahedra to depth 5 with siblings for the hierarchy, "
+        "with off-grid query points; 2-D: nested polygons, circles, figure-eights, polylines with reversed/duplicated/removed/degenerate segments; "
+        "plus a fixed list of edge cases; distinct = distinct operation lines"
+    ),
+    trusted=[
+        "modelled, not verified: Go maps/sets as lists in an arbitrary order (all theorems are for every order); counting maps as multisets of keys; "
+        "face pointers as list positions; Repair's hashToClass map as 'the live class holding the hash' (no stale entries: every hash of a merged class is re-pointed)",
+        "oracles: Solid.Contains / ColliderSolid ray parity are parameters of the models (C07 covers colliders); the harness compares them against exact "
+        "rational even-odd ray casting in Lean on every rn3/rn2/hier3/hier2 case",
+        "the sweep-order hypothesis of hierarchy_nesting (a component is swept after every component enclosing it) is the geometric argument in the code's "
+        "comment (min of a fixed linear functional); it is an assumption of the theorem and is exercised, not proved",
+        "partial: orientation search - soundness proved (orientations_consistent_partial), partition into Neighbors-components and 'nil only if "
+        "non-orientable' only checked by correspondence; Surface.FanConnected => no singular vertex is proved, the converse is only cross-checked by the "
+        "driver on every edge-balanced case; 2-D hierarchy tracing (traceLoop) modelled and checked by correspondence, partition theorem proved for 3-D only",
+    ],
+    assumptions=[
+        "no NaN coordinates; SingularVertices / Orientable / RepairNormalsMajority are compared on meshes without degenerate triangles "
+        "(on a degenerate triangle Triangle.inCommon is not symmetric and the fan search depends on Go's map order; diagd3 compares NeedsRepair and InconsistentEdges there)",
+        "Repair is compared for power-of-two epsilon (so that c/epsilon is exact and the rounded cells can be recomputed in exact arithmetic)",
+        "2-D MeshToHierarchy panics ('mesh is non-manifold') on inconsistently oriented input that passes Manifold(); the model reproduces this documented precondition",
+    ],
+    level_text=(
+        "Theorems (Lean 4, all meshes, every iteration order): NeedsRepair <-> some undirected edge not used exactly twice; InconsistentEdges = directed edges "
+        "used twice; both together <-> Surface.EdgeBalanced; SingularVertices = vertices whose fan graph (share an edge at v) is disconnected; Clusters = its "
+        "components; a successful orientation search yields flips after which no directed edge repeats, and the majority vote flips min(k,n-k) faces per group; "
+        "RepairNormals restores exactly what the even-odd oracle reports; Repair merges exactly the equivalence closure of 'share a grid hash' and maps to a "
+        "representative inside the class; the hierarchy's FullMesh is a permutation of the input for every oracle, its nodes are the vertex-connected components; "
+        "with a laminar, sweep-compatible containment oracle, ancestor <-> encloses and Contains = parity of containing components; 2-D Manifold/InconsistentVertices "
+        "<-> Surface.InOutOne. Tie: the real diagnostics, repairs and hierarchies on damaged meshes are diffed against the definitions evaluated in Lean "
+        "(exact rational even-odd), with the faithful models run alongside."
+    ),
+    level_note=(
+        "Proved about the models in lean/M3d/Model/MeshDiag.lean; models tied to /repo by correspondence (11 kinds, 3-D and 2-D). Trusted: Lean kernel, "
+        "propext/Classical.choice/Quot.sound, Go harness + Lean driver, the abstractions listed under trusted. One defect found and fixed (5660fd7: "
+        "SingularVertices never joined coincident triangles)."
+    ),
 )
